@@ -137,7 +137,7 @@ class C16(PropertyCheck):
                       tail=rng.choice([0.0, 0.0, 0.3, 1.0]), end_exact=rng.random() < 0.5, share=share,
                       indices=rng.choice(["seq", "seq", "zero", "dup", "random"]),
                       decoys=rng.choice([None, None, None, "count", "info", "both"]),
-                      data_label=rng.choice(["base", "base", "none", "body", "end"]))
+                      data_label=rng.choice(["base", "base", "none", "body", "end"]), tail_share=rng.random() < 0.2)
             if not kw["padded"] and rng.random() < 0.3:
                 kw["sentinel"] = False           # bodies from data offset 0 (first word 0 => known finding F27)
             image, exp = txtfile.arc_write(files, rng, **kw)
@@ -185,19 +185,42 @@ class C16(PropertyCheck):
             image, exp = txtfile.arc_write(fs, rng, padded=bool(rep & 1), count_first=bool(rep & 2), shuffle_tables=bool(rep & 4),
                                            extra_labels=bool(rep & 8), tail=rng.choice([0.0, 1.0]), decoys=("count", "info", "both")[rep % 3])
             cases.append(Case(render(image, exp, fs), "several-addresses"))
+        # images of a string-POOLING packer: a name / label text stored as the TAIL of a longer string of the table ("a.bin" inside
+        # "data.bin", the label "Info" inside the name "SceneInfo", "Count" inside "DisCount") - seeded C16-7
+        pools = [[b"data.bin", b"a.bin", b"bin"], [b"SceneInfo", b"x"], [b"DisCount", b"Count.bin", b"t"], [b"SceneInfo", b"DisCount", b"nfo", b"o"],
+                 [b"dir/sub/file.lz", b"file.lz", b"le.lz", b".lz", b"z"], [b"\x93\xfa\x96\x7b\x8c\xea.lz", b"\x8c\xea.lz", b".lz"]]
+        for rep in range(48 if quick else 480):
+            names = pools[rep % len(pools)]
+            fs = [(n, bytes(rng.getrandbits(8) for _ in range(rng.choice([0, 3, 8, 17])))) for n in names]
+            rng.shuffle(fs)
+            image, exp = txtfile.arc_write(fs, rng, padded=bool(rep & 1), count_first=bool(rep & 2), extra_labels=bool(rep & 4),
+                                           shuffle_tables=bool(rep & 8), junk_text=bool(rep & 16), tail_share=True)
+            cases.append(Case(render(image, exp, fs, bool(rep & 1)), "tail-shared-strings"))
+        # a missing label is an error also when NOTHING is packed (count word 0): Count present + Info absent, Info present +
+        # Count absent, both absent - padded or not, Count before or after Info, with and without other labels (seeded C16-8)
+        for drop in ("info", "count", "both"):
+            for mask in range(16):
+                image, exp = txtfile.arc_write([], rng, padded=bool(mask & 1), count_first=bool(mask & 2), extra_labels=bool(mask & 4),
+                                               shuffle_tables=bool(mask & 8), drop=drop)
+                cases.append(Case(render(image, exp, []), "errors-empty-" + drop))
         # error variants
         n_err = 600 if quick else 8000
         for _ in range(n_err):
             nf = rng.randint(1, 6)
             files = rnd_files(rng, nf, 24)
+            pre_v = None
+            if rng.random() < 0.15:              # label errors on an EMPTY archive as well
+                nf, files, pre_v = 0, [], rng.choice(["nocount", "noinfo", "noboth"])
             kw = dict(padded=rng.random() < 0.5, unaligned=rng.random() < 0.5, count_first=rng.random() < 0.5,
                       extra_labels=rng.random() < 0.5, shuffle_tables=rng.random() < 0.5)
-            v = rng.choice(["nocount", "noinfo", "noname", "range", "more", "fewer", "offset"])
+            v = pre_v or rng.choice(["nocount", "noinfo", "noboth", "noname", "range", "more", "fewer", "offset"])
             shown = files
             if v == "nocount":
                 kw["drop"] = "count"
             elif v == "noinfo":
                 kw["drop"] = "info"
+            elif v == "noboth":
+                kw["drop"] = "both"
             elif v == "noname":
                 kw["bad_name"] = rng.randrange(nf)
             elif v == "range":
